@@ -335,6 +335,7 @@ impl Command {
         ignore_threshold: bool,
     ) -> Result<()> {
         let root: Signed<Root> = load_file(path).await?;
+        let cross_signing = cross_sign.is_some();
         // get the root based on cross-sign
         let loaded_root = match cross_sign {
             None => root.clone(),
@@ -395,7 +396,13 @@ impl Command {
             })?
             .threshold
             .get();
-        let signature_count = signed_root.signed().signatures.len();
+        let root_keyids = &signed_root.signed().signed.roles[&RoleType::Root].keyids;
+        let signature_count = signed_root
+            .signed()
+            .signatures
+            .iter()
+            .filter(|sig| cross_signing || root_keyids.contains(&sig.keyid))
+            .count();
         if threshold > signature_count as u64 {
             // Return an error when the "ignore-threshold" flag wasn't set
             if !ignore_threshold {
